@@ -48,7 +48,7 @@ def _env(schema):
     alias = {"doc": "doc", "p": "paragraph", "bq": "blockquote", "hr": "horizontal_rule", "pre": "code_block",
              "br": "hard_break", "ul": "bullet_list", "ol": "ordered_list", "li": "list_item", "iso": "iso",
              "table": "table", "row": "row", "cell": "cell", "title": "title", "body": "body", "fa": "a", "fb": "b",
-             "blk": "block", "plain": "plain", "nomark": "nomark", "pic": "img", "sec": "sec", "verse": "verse"}
+             "blk": "block", "plain": "plain", "nomark": "nomark", "pic": "img", "sec": "sec", "verse": "verse", "fig": "fig"}
     for k, t in alias.items():
         if t in nodes:
             e[k] = block(t)
@@ -154,7 +154,8 @@ CX_DOCS = [
     'doc(h1("t"), sec(hr(), hr()))',
 ]
 WS_DOCS = ['doc(p("a\\nb"), verse("c\\nd"), pre("e\\nf"))']
-DOCS = {"ws": WS_DOCS, "cx": CX_DOCS, "ni": NI_DOCS, "list": LIST_DOCS, "basic": BASIC_DOCS, "strict": STRICT_DOCS, "title": TITLE_DOCS, "fixed": FIXED_DOCS,
+AT_DOCS = ['doc(fig("ab"), p("c"))', 'doc(p("a"), bq(fig("b", img())), fig())']
+DOCS = {"at": AT_DOCS, "ws": WS_DOCS, "cx": CX_DOCS, "ni": NI_DOCS, "list": LIST_DOCS, "basic": BASIC_DOCS, "strict": STRICT_DOCS, "title": TITLE_DOCS, "fixed": FIXED_DOCS,
         "docmarks": DOCMARKS_DOCS, "iso": ISO_DOCS, "table": TABLE_DOCS}
 _PAIR = {"mx1": ("m1", "m3"), "mx2": ("m1", "m2"), "mx3": ("m1", "m2"), "mx4": ("m1", "m2"), "mx5": ("m0", "m3"), "mx6": ("m0", "m1")}
 for _n, (_x, _y) in _PAIR.items():
@@ -200,6 +201,7 @@ SLICES["basic"] = [s for s in SLICES["list"] if "ul(" not in s[0]]
 SLICES["docmarks"] = SLICES["list"]
 SLICES["ni"] = SLICES["list"]
 SLICES["ws"] = SLICES["list"]
+SLICES["at"] = SLICES["list"]
 SLICES["cx"] = [('doc(p("xy"))', 1, 3), ('doc(p("xy"))', 0, 4), ('doc(h1("h"))', 0, 3), ('doc(p("a"), sec(hr()))', 3, 6),
                 ('doc(p("a"), sec(h1("h"), p("c")))', 3, 10), ('doc(p("a"), p("b"))', 2, 5)]
 SLICES["iso"] = SLICES["list"] + [('doc(iso(p("i")))', 0, 5), ('doc(iso(p("i")), p("j"))', 2, 7), ('doc(iso(p("i")))', 1, 4),
